@@ -22,8 +22,8 @@ CHECKS = {
             "find_nearby_atoms call made inside whole-pipeline runs is compared with an all-atoms search over the "
             "atoms residues own at that moment; misses and ghosts are classified by registration state and atom role.",
             "Trusted: brute-force distance search; the classification of an inconsistent atom (unregistered / stale / "
-            "removed-still-registered) used to key known findings. Known findings cover only optimisation-phase "
-            "(cell size 5) bookkeeping of LP / flip / water / alcoholic / carboxylic atoms.", "DESIGN.md#c14"),
+            "removed-still-registered) that keys any finding. The optimisation-phase bookkeeping defects found with "
+            "it were repaired in /repo (known_findings.json, fixed list); no C14 finding is open.", "DESIGN.md#c14"),
     "C08": ("exploration", "round-trip monitor: real formatter/print_pqr output re-read by independent column and token readers and by io.read_pqr",
             "Every record written by the real Atom.get_pqr_string + main.print_pqr (4 flag combinations) and by "
             "whole runs on hostile numberings is read back by an independent fixed-column reader, a plain token "
